@@ -138,6 +138,9 @@ class Sym:
             return self.place(o["place"], depth)
         if k == "const":
             return const_expr(o["c"])
+        if k == "expr":
+            # a pre-computed expression (used when a site is re-examined in the context of a call site)
+            return o["e"]
         return ("other", o.get("dbg", "?"))
 
     def rvalue(self, rv, depth=0):
